@@ -734,7 +734,13 @@ func c17GoIndexing(r *Run) {
 		Tags: []string{"a", "b", "c"}, Meta: map[string]any{"k": 1, "nested": map[string]any{"deep": []any{"d0", "d1"}}, "nilv": nil},
 		Next: leaf, Arr: [2]int{4, 5}, Grid: [][]int{{1, 2}, {3}}, ByName: map[string]*c17Doc{"leaf": leaf, "nil": nil}, hidden: 3}
 	emb := c17Emb{C17Pub: C17Pub{ID: 9}, Name: "e"}
-	st := vuego.NewStackWithData(map[string]any{"doc": doc, "pdoc": &doc, "emb": emb, "list": []any{doc, &doc}}, doc)
+	ids := []int{10, 20, 30}
+	arr := [2]string{"p", "q"}
+	totals := map[string]int{"2024": 7, "k": 1, "007": 9}
+	byYear := map[string][]string{"2024": {"a", "b"}}
+	nested := map[string]map[string][]int{"1": {"2": {5, 6}}}
+	st := vuego.NewStackWithData(map[string]any{"doc": doc, "pdoc": &doc, "emb": emb, "list": []any{doc, &doc},
+		"ids": &ids, "arr": &arr, "totals": totals, "byYear": byYear, "nested": nested, "anymap": map[string]any{"0": "zero", "10": []any{"x"}}}, doc)
 	type chk struct {
 		path string
 		want any
@@ -751,6 +757,12 @@ func c17GoIndexing(r *Run) {
 		{"doc.ByName.leaf.Name", leaf.Name, true}, {"doc.ByName.nil.Name", nil, false}, {"doc.ByName.zz.Name", nil, false},
 		{"doc.hidden", nil, false}, {"pdoc.Name", doc.Name, true}, {"pdoc.Next.Name", leaf.Name, true}, {"pdoc.hidden", nil, false},
 		{"list.0.Name", doc.Name, true}, {"list.1.Name2", doc.Name2, true}, {"list.2.Name", nil, false},
+		// numeric-looking steps on containers that are not direct slices: typed maps with digit keys, pointers to slices and arrays
+		{"totals.2024", totals["2024"], true}, {"totals.007", totals["007"], true}, {"totals.k", totals["k"], true}, {"totals.2025", nil, false},
+		{"byYear.2024[1]", byYear["2024"][1], true}, {"byYear.2024.0", byYear["2024"][0], true}, {"byYear.2024.2", nil, false},
+		{"nested.1.2.1", nested["1"]["2"][1], true}, {"nested.1.3", nil, false},
+		{"ids[1]", ids[1], true}, {"ids.2", ids[2], true}, {"ids.3", nil, false}, {"arr.0", arr[0], true}, {"arr[1]", arr[1], true}, {"arr.2", nil, false},
+		{"anymap.0", "zero", true}, {"anymap.10.0", "x", true}, {"anymap.1", nil, false},
 		{"Name", doc.Name, true}, {"Name2", doc.Name2, true}, {"Tags.1", doc.Tags[1], true}, {"Next.Name", leaf.Name, true}, {"hidden", nil, false},
 	}
 	for _, c := range checks {
